@@ -40,6 +40,7 @@ type sbAction struct {
 	Dur     int    `json:"d,omitempty"` // index into sbDurations (advance)
 	Fail    bool   `json:"f,omitempty"` // ping: make it fail
 	Burst   bool   `json:"b,omitempty"` // do not settle after this action
+	Twin    bool   `json:"t,omitempty"` // submit: a second client submits the same request at the same instant, from its own goroutine
 	AtPing  bool   `json:"p,omitempty"` // submit: the client gives up at the moment the scheduler health-checks the loaded runner (needsReload's Ping)
 }
 
@@ -118,6 +119,7 @@ func sbGen(t *rapid.T) sbCase {
 			a.Variant = rapid.SampledFrom([]int{0, 0, 0, 0, 1, 2, 3, 4, 5, 6, 6}).Draw(t, "variant")
 			a.Keep = rapid.IntRange(0, len(sbKeepReq)-1).Draw(t, "keep")
 			a.AtPing = rapid.IntRange(0, 9).Draw(t, "at_ping") == 0
+			a.Twin = rapid.IntRange(0, 7).Draw(t, "twin") == 0
 		case "finish", "cancel", "loadok", "loadfail":
 			a.Idx = rapid.IntRange(0, 5).Draw(t, "idx")
 		case "ping":
@@ -365,6 +367,7 @@ type sbReq struct {
 	finished  bool // harness cancelled the context (finish or cancel), logged before the cancel
 	cancelled bool // cancelled before any reply had been observed
 	expectI   *sbSrv
+	submitted bool // GetRunner has returned to its caller (it must never block: "busy" is an answer)
 	atPing    bool // cancelled by the fake runner's Ping: after the scheduler has dequeued the request, before the hand-off
 	keepInf   bool // the keep-alive this request asks for (its own, or the configured one if it names none) is infinite
 }
@@ -817,26 +820,61 @@ func (e *sbEngine) submit(a sbAction) {
 	e.quiet = false
 	e.reqs = append(e.reqs, r)
 	e.logf("submit req=%d model=%d variant=%d keep=%d", r.id, m, a.Variant%sbNumVariants, a.Keep%len(sbKeepReq))
-	e.mu.Unlock()
-
-	okCh, errCh := e.sched.GetRunner(ctx, mdl, opts, sbKeepReq[a.Keep%len(sbKeepReq)])
-	// C02 (b): the caller is told "busy" only when the queue really is full
-	select {
-	case err := <-errCh:
-		e.mu.Lock()
-		r.replies++
-		r.err = err
-		e.logf("error req=%d err=%v (immediate)", r.id, err)
-		if errors.Is(err, ErrMaxQueue) {
-			e.flag("max_queue")
-			if unanswered < e.c.MaxQueue {
-				e.violate("C02", "request %d was refused with 'server busy' although only %d requests are unanswered (queue limit %d)", r.id, unanswered, e.c.MaxQueue)
+	// one client's call of GetRunner and what it sees at once. C02 (b): the caller is told "busy" only when the queue really
+	// is full (slack: requests submitted at the same instant that may or may not have been queued before this one)
+	fire := func(r *sbReq, ctx context.Context, slack int) {
+		un := unanswered
+		if slack > 0 {
+			// this call runs on its own goroutine, possibly after later submissions: count again, now
+			e.mu.Lock()
+			un = 0
+			for _, o := range e.reqs {
+				if o != r && o.replies == 0 {
+					un++
+				}
 			}
+			e.mu.Unlock()
+			slack = 0
 		}
+		okCh, errCh := e.sched.GetRunner(ctx, mdl, opts, sbKeepReq[a.Keep%len(sbKeepReq)])
+		e.mu.Lock()
+		r.submitted = true
 		e.mu.Unlock()
-	default:
+		select {
+		case err := <-errCh:
+			e.mu.Lock()
+			r.replies++
+			r.err = err
+			e.logf("error req=%d err=%v (immediate)", r.id, err)
+			if errors.Is(err, ErrMaxQueue) {
+				e.flag("max_queue")
+				if un+slack < e.c.MaxQueue {
+					e.violate("C02", "request %d was refused with 'server busy' although only %d requests are unanswered (queue limit %d)", r.id, un+slack, e.c.MaxQueue)
+				}
+			}
+			e.mu.Unlock()
+		default:
+		}
+		go e.requester(r, okCh, errCh)
 	}
-	go e.requester(r, okCh, errCh)
+	if a.Twin {
+		// two clients at the same instant: each calls GetRunner from its own goroutine and neither call may block (a caller
+		// that is neither queued nor told "busy" shows as a request whose GetRunner never returned)
+		ctx2, cancel2 := context.WithCancel(context.Background())
+		r2 := &sbReq{id: len(e.reqs), model: m, variant: a.Variant, opts: opts, mdl: mdl, cancel: cancel2, keepInf: r.keepInf}
+		e.reqs = append(e.reqs, r2)
+		e.logf("submit req=%d model=%d variant=%d keep=%d (twin of req=%d)", r2.id, m, a.Variant%sbNumVariants, a.Keep%len(sbKeepReq), r.id)
+		e.flag("twin_submit")
+		e.mu.Unlock()
+		go fire(r2, ctx2, 1)
+		go fire(r, ctx, 1)
+		if !a.Burst {
+			e.settle()
+		}
+		return
+	}
+	e.mu.Unlock()
+	fire(r, ctx, 0)
 
 	if a.Burst || (reuse == nil && !needRoom) {
 		if !a.Burst {
